@@ -17,7 +17,7 @@
       kept by the pruning, whatever other candidates there are.  With
       RerunProofs.stable_available_means_recovered: the piece is recovered. *)
 From TB Require Import Base Decimal BencodeModel TorrentModel TorrentProofs PathModel FsModel SolverModel FinderModel RunModel
-                       SolverProofs RunProofs FsProofs SearchProofs FinderProofs SystemModel SystemProofs EstablishProofs CompleteProofs RerunProofs Generated GeneratedObligations.
+                       SolverProofs RunProofs FsProofs SearchProofs FinderProofs SystemModel SystemProofs EstablishProofs CompleteProofs RerunProofs PreludeProofs Generated GeneratedObligations.
 From Coq Require Import ZifyN ZifyNat ZifyBool.
 Local Open Scope N_scope.
 
@@ -182,4 +182,54 @@ Proof.
   intros Hfun Hwf Hall Hcr Hhash Hpadz Hne Hone Hpop Hix Hps Ha Hp Hn Hr Hn'.
   destruct (present_means_stably_available content (s_fs s) dev under es0 ix es Hpop Hix pc Hall Hps) as [wit Hv].
   exact (stable_available_means_recovered H content es Hfun pc Hwf Hall Hcr Hhash Hpadz Hne Hone wit s s' i o Ha Hp Hv Hn Hr Hn').
+Qed.
+
+(** The pre-flight of --resize-export-files makes a short export file a source (C14): after
+    [SetLen target declared] on a shorter file the segment's bytes that were there are still there
+    and the file now has exactly the declared length, so it is [present] at its own export
+    location in the state the scanning starts from. *)
+Lemma content_set_data_same f i b : fs_content (set_data f i b) i = b.
+Proof. unfold fs_content, set_data. cbn [fs_data assoc_n]. now rewrite N.eqb_refl. Qed.
+
+Theorem extended_export_file_is_present content f under es0 e s i f' :
+  In e es0 -> e_pad e = false -> e_len e = e_len (ps_entry s) ->
+  fs_lookup f (e_target e) = Some (NFile i) -> (length (fs_content f i) <= N.to_nat (e_len e))%nat ->
+  (N.to_nat (ps_off s) + N.to_nat (ps_len s) <= length (fs_content f i))%nat ->
+  firstn (N.to_nat (ps_len s)) (skipn (N.to_nat (ps_off s)) (fs_content f i)) = seg_bytes content s ->
+  apply_op f (SetLen (e_target e) (e_len e)) = (f', true) ->
+  present content f' under es0 s (e_target e) i.
+Proof.
+  intros Hin Hpad Hle Hl Hshort Hfit Hb Happ. cbn [apply_op] in Happ. rewrite Hl in Happ. inversion Happ; subst f'. clear Happ.
+  unfold present. rewrite lookup_set_data, content_set_data_same. split; [exact Hl|]. split.
+  - rewrite length_resize. lia.
+  - split; [right; exists e; auto|].
+    rewrite <- Hb. unfold resize. rewrite (firstn_all2 (n := N.to_nat (e_len e)) (fs_content f i)) by exact Hshort.
+    rewrite skipn_app. rewrite firstn_app. rewrite skipn_length.
+    replace (N.to_nat (ps_len s) - (length (fs_content f i) - N.to_nat (ps_off s)))%nat with 0%nat by lia.
+    cbn [firstn]. now rewrite app_nil_r.
+Qed.
+
+(** The export part of [ix_of_fs] is what the prelude's export probes hand to the index: when every
+    probe is answered by the file system ([stat]), the continuation receives exactly
+    [export_registers stat] of the table entries, in table order. *)
+Lemma export_probes_registers ans mutok (stat : path -> option listed) k : forall es acc,
+  (forall e, In e es -> e_pad e = false ->
+     match ans (e_target e) (of_write index_open) with
+     | PFile n id => exists l, stat (e_target e) = Some l /\ l_len l = n /\ l_id l = id
+     | _ => stat (e_target e) = None
+     end) ->
+  PreludeProofs.run_prelude ans mutok (export_probes es acc k) =
+  PreludeProofs.run_prelude ans mutok (k (acc ++ flat_map (fun e => match export_registers stat e with Some x => [x] | None => [] end) es)).
+Proof.
+  induction es as [|e r IH]; intros acc Hans; cbn [export_probes flat_map]; [now rewrite app_nil_r|].
+  assert (Hr : forall e', In e' r -> e_pad e' = false -> _) by (intros e' He'; apply Hans; now right).
+  unfold export_registers at 1. destruct (e_pad e) eqn:Hp; [cbn [app]; exact (IH acc Hr)|].
+  cbn [PreludeProofs.run_prelude]. pose proof (Hans e (or_introl eq_refl) Hp) as Ha.
+  destruct (ans (e_target e) (of_write index_open)) as [| | |n id].
+  - rewrite Ha. cbn [app]. exact (IH acc Hr).
+  - rewrite Ha. cbn [app]. exact (IH acc Hr).
+  - rewrite Ha. cbn [app]. exact (IH acc Hr).
+  - destruct Ha as (l & Hs & Hn & Hid). rewrite Hs, Hn, Hid. destruct (n =? e_len e).
+    + rewrite (IH _ Hr). now rewrite <- app_assoc.
+    + cbn [app]. exact (IH acc Hr).
 Qed.
